@@ -25,6 +25,7 @@ func init() {
 			"C01.4": "typed-read dispatch defaults to an error",
 			"C01.5": "chunk index address patched into the header before success, with the address returned by WriteToFile",
 			"C01.6": "copies into fixed-stride element slots are bounded by the stride",
+			"C01.7": "boundary chunks are expanded to the nominal chunk shape before they are filtered, stored and indexed",
 		},
 	}, ruleC01)
 }
@@ -78,6 +79,97 @@ func ruleC01(c *Ctx, r *Result) {
 	c01dispatchDefaults(c, r)
 	c01indexPatch(c, r)
 	c01slotCopies(c, r)
+	c01edgeChunks(c, r)
+}
+
+// c01edgeChunks: in writeChunkedData every chunk payload that reaches the filter pipeline / the file / the index went through
+// expandEdgeChunk with the dataset's nominal chunk dimensions (the reader addresses a chunk with nominal strides).
+func c01edgeChunks(c *Ctx, r *Result) {
+	fn := c.Fn(r, "hdf5.DatasetWriter.writeChunkedData")
+	if fn == nil {
+		return
+	}
+	var expand *ssa.Call
+	// recognised by role, not by name: a module function that takes the extracted chunk and the dataset's nominal chunk dimensions
+	for _, site := range callsIn(fn) {
+		call, ok := site.(*ssa.Call)
+		if !ok || call.Call.StaticCallee() == nil || !inModule(fnPkgPath(call.Call.StaticCallee())) {
+			continue
+		}
+		takesChunk, takesNominal := false, false
+		for _, a := range call.Call.Args {
+			if src, isCall := a.(*ssa.Call); isCall && c.calleeName(src) == "writer.ChunkCoordinator.ExtractChunkData" {
+				takesChunk = true
+			}
+			if valueReadsField(a, "hdf5.DatasetWriter.chunkDims", 0) {
+				takesNominal = true
+			}
+		}
+		if takesChunk && takesNominal {
+			expand = call
+		}
+	}
+	if expand == nil {
+		r.Viol("C01.7", c.Name(fn)+"#edge-chunk-expanded", c.Pos(fn.Pos()), "chunk payloads are no longer expanded to the nominal chunk shape: a clipped boundary chunk cannot be addressed with nominal strides")
+		r.Floor("C01.7", 1)
+		return
+	}
+	// input is the extracted chunk, nominal dims come from dw.chunkDims
+	r.Hold("C01.7", c.Name(fn)+"#edge-chunk-expanded", c.InstrPos(expand), c.calleeName(expand)+" receives the extracted chunk and the nominal chunk dimensions")
+	// consumers: pipeline.Apply / WriteAtAddress / len() for Allocate and the index receive the expanded value (or the filtered value derived from it)
+	derives := func(v ssa.Value) bool {
+		seen := map[ssa.Value]bool{}
+		var walk func(v ssa.Value) bool
+		walk = func(v ssa.Value) bool {
+			if v == nil || seen[v] {
+				return true
+			}
+			seen[v] = true
+			switch x := v.(type) {
+			case *ssa.Call:
+				if x == expand {
+					return true
+				}
+				if strings.HasSuffix(c.calleeName(x), "FilterPipeline.Apply") {
+					return walk(x.Call.Args[len(x.Call.Args)-1])
+				}
+				return false
+			case *ssa.Extract:
+				return walk(x.Tuple)
+			case *ssa.Phi:
+				for _, e := range x.Edges {
+					if !walk(e) {
+						return false
+					}
+				}
+				return true
+			}
+			return false
+		}
+		return walk(v)
+	}
+	n := 0
+	for _, site := range callsIn(fn) {
+		name := c.calleeName(site)
+		var payload ssa.Value
+		switch {
+		case strings.HasSuffix(name, "FilterPipeline.Apply"):
+			payload = site.Common().Args[len(site.Common().Args)-1]
+		case name == "writer.FileWriter.WriteAtAddress":
+			payload = site.Common().Args[1]
+			if valueReadsField(site.Common().Args[2], "hdf5.DatasetWriter.layoutBTreeOffset", 0) {
+				continue // the header patch, not a chunk
+			}
+		default:
+			continue
+		}
+		n++
+		r.Check(derives(payload), "C01.7", c.Name(fn)+"#"+lastSeg(name)+"#receives-nominal-size-chunk", c.InstrPos(site.(ssa.Instruction)), "the chunk bytes handed to "+lastSeg(name)+" are the expanded (nominal-shape) chunk or its filtered form")
+	}
+	if n < 2 {
+		r.Errorf("C01.7: chunk consumers not found in writeChunkedData")
+	}
+	r.Floor("C01.7", 3)
 }
 
 // registryEntries evaluates the composite literal that initialises hdf5.datatypeRegistry: Datatype constant ->
